@@ -6,6 +6,7 @@ import (
 	"fmt"
 	"os"
 	"path/filepath"
+	"sort"
 	"strings"
 	"testing"
 	"time"
@@ -27,6 +28,9 @@ func TestMain(m *testing.M) { pt.Main(m, false) }
 // makes the request legitimate. Deliberately generous (a set, not one action): the check
 // only ever demands a refusal when none of them is allowed.
 var acceptable = map[string][]string{
+	// (the gateway's action set has no s3:DeleteObjectVersion - a policy naming it is refused as malformed - so a
+	// delete by version id is governed by s3:DeleteObject)
+	"GetObjectNullVersion": {"s3:GetObjectVersion"}, "DeleteObjectNullVersion": {"s3:DeleteObject"},
 	"DeleteBucket": {"s3:DeleteBucket"}, "HeadBucket": {"s3:ListBucket"}, "ListObjects": {"s3:ListBucket"}, "ListObjectsV2": {"s3:ListBucket"},
 	"ListObjectVersions": {"s3:ListBucketVersions", "s3:ListBucket"}, "ListMultipartUploads": {"s3:ListBucketMultipartUploads"},
 	"GetBucketTagging": {"s3:GetBucketTagging"}, "PutBucketTagging": {"s3:PutBucketTagging"}, "DeleteBucketTagging": {"s3:PutBucketTagging"},
@@ -451,7 +455,7 @@ func genCase(t *rapid.T) caseA {
 		c.Spec.Op = rapid.SampledFrom(cat.Names()).Draw(t, "op")
 		if rapid.IntRange(0, 9).Draw(t, "copy_bias") == 0 {
 			// the operations whose decision is about more than one object
-			c.Spec.Op = rapid.SampledFrom([]string{"CopyObject", "UploadPartCopy", "DeleteObjects"}).Draw(t, "copy_op")
+			c.Spec.Op = rapid.SampledFrom([]string{"CopyObject", "UploadPartCopy", "DeleteObjects", "GetObjectNullVersion", "DeleteObjectNullVersion"}).Draw(t, "copy_op")
 		}
 		e := cat.Lookup(c.Spec.Op)
 		if e.Level != "service" && c.Spec.Op != "GetObjectVersion" && c.Spec.Op != "DeleteObjectVersion" {
@@ -497,6 +501,39 @@ func genCase(t *rapid.T) caseA {
 			c.Stmts = []model.Statement{deny, allow}
 		} else {
 			c.Stmts = []model.Statement{allow, deny}
+		}
+		// or the near miss: the caller is allowed the actions whose names resemble the one this operation needs, on
+		// everything, but not that one
+		if acts := acceptable[c.Spec.Op]; len(acts) > 0 && rapid.Bool().Draw(t, "aimed_near_miss") {
+			var near []string
+			for _, cand := range append(append([]string(nil), model.ObjectActions...), model.BucketActions...) {
+				ok := true
+				for _, a := range acts {
+					common := 0
+					for common < len(a) && common < len(cand) && a[common] == cand[common] {
+						common++
+					}
+					if cand == a || common < 9 {
+						ok = false
+					}
+				}
+				if ok {
+					near = append(near, cand)
+				}
+			}
+			if len(near) > 0 {
+				sort.Strings(near)
+				chosen := rapid.SliceOfNDistinct(rapid.SampledFrom(near), 1, 3, rapid.ID[string]).Draw(t, "near_actions")
+				// the nearest of all - a name the needed one merely extends, or that extends it - is always among them
+				for _, cand := range near {
+					for _, a := range acts {
+						if (strings.HasPrefix(a, cand) || strings.HasPrefix(cand, a)) && !strings.Contains(strings.Join(chosen, ","), cand+",") && chosen[len(chosen)-1] != cand {
+							chosen = append(chosen, cand)
+						}
+					}
+				}
+				c.Stmts = []model.Statement{{Effect: "Allow", Principals: who, Actions: chosen, Resources: []string{bktA, bktA + "/*"}}}
+			}
 		}
 	}
 	return c
